@@ -543,11 +543,51 @@ def ob_declared_default():
     return h
 
 
+def ob_std_option():
+    """c_std / cpp_std (the real UserStdOption.validate_value): a preference list of 1-3 standards, each `c` or `gnu` + two symbolic digits, given as a list or as
+    a comma string, against a compiler that supports c99 and c11 (GNU spellings supported or deprecated). A list naming something that is no standard at all is
+    rejected wherever it stands; otherwise the first supported entry wins, then the first deprecated GNU spelling (as its plain standard), else rejection"""
+    def h():
+        ALL = ['c89', 'c99', 'c11', 'c18', 'gnu89', 'gnu99', 'gnu11', 'gnu18']
+        opt = O.UserStdOption('c', list(ALL))
+        dep = decide(sym_bool('gnu_deprecated'))
+        opt.set_versions(['c99', 'c11'], gnu=True, gnu_deprecated=dep)
+        n = 1 + choose(3, 'entries')
+        ents = [['c', 'gnu'][choose(2, 'prefix%d' % i)] + sym_str(2, 'digits%d' % i, alphabet='189') for i in range(n)]
+        val = list(ents) if choose(2, 'spelling') == 0 else mkjoin(ents)
+        supported = ['c99', 'c11'] + ([] if dep else ['gnu99', 'gnu11'])
+        mapped = {'gnu99': 'c99', 'gnu11': 'c11'} if dep else {}
+        isin = lambda s, pool: any(decide(bt_any(s == p)) for p in pool)
+        exp = None
+        if all(isin(e, ALL) for e in ents):
+            for e in ents:
+                if isin(e, supported): exp = e; break
+            if exp is None:
+                for e in ents:
+                    for k, v in mapped.items():
+                        if exp is None and decide(bt_any(e == k)): exp = v
+        try:
+            got = opt.validate_value(val)
+        except ME:
+            check(exp is None, 'a preference list of known standards with a usable entry is accepted'); cover('rejected'); return
+        check(exp is not None, 'a list that names an unknown standard, or nothing the compiler supports, is rejected')
+        if exp is not None: check(decide(bt_any(got == exp)), 'the first supported entry wins, then the first deprecated GNU spelling as its plain standard')
+        cover('accepted')
+    return h
+
+
+def mkjoin(parts):
+    s = parts[0]
+    for p in parts[1:]: s = s + ',' + p
+    return s
+
+
 def obligations(tier):
     out = [Obligation('top/integer', ob_top_int(), dict(sources='2^3', values='-9..9 as int or 1-digit string', range='symbolic in -5..5'), labels=('accepted', 'rejected'), max_paths=2000000)]
     for kind in ('bool', 'combo', 'feature', 'string'):
         out.append(Obligation('top/' + kind, ob_top_kind(kind), dict(sources='2^3', kind=kind), labels=('accepted',) + (() if kind == 'string' else ('rejected',)), max_paths=2000000))
     out.append(Obligation('top/array', ob_array(), dict(sources='2^3', elements='2 per source among choices + invalid', spelling='list | comma string'), labels=('accepted', 'rejected'), max_paths=2000000))
+    out.append(Obligation('std-option', ob_std_option(), dict(real='UserStdOption.set_versions / validate_value', entries="1-3, each c|gnu + 2 digits over {1, 8, 9}", spelling='list | comma string', compiler='c99, c11; GNU spellings supported | deprecated'), labels=('accepted', 'rejected'), max_paths=3000000))
     for cross in (False, True):
         out.append(Obligation('per-machine/%s' % ('cross' if cross else 'native'), ob_machine(cross), dict(option='pkg_config_path / build.pkg_config_path', source='any of 3'), labels=('done',)))
     out.append(Obligation('top/prefix', ob_prefix(), dict(sources='2^3', prefixes=PFX), labels=('done',)))
